@@ -445,6 +445,15 @@ def race_cluster(rng, plan):
         c = rng.randrange(len(ss))
         s = ss[c]
         r = ticks(rng, 0.05, 3.0)
+        T = plan.get('config', {}).get('ping_timeout')
+        if isinstance(T, (int, float)) and len(ss) in (1, 2, 4) and \
+                rng.random() < 0.35:
+            # in step with the service task: it starts with the first
+            # session and sweeps one session every ping_timeout / n
+            t_s = min(x.get('t_open', 0.0) for x in ss)
+            k = rng.randint(1, 6 * len(ss))
+            r = max(TICK, t_s + k * T / len(ss) - s.get('t_open', 0.0) -
+                    TICK)
         # the OPEN answer takes one tick: client times count from there
         t_abs = s.get('t_open', 0.0) + TICK + r
         ws = s.get('open') == 'websocket'
@@ -479,7 +488,59 @@ def race_cluster(rng, plan):
     return plan
 
 
-def with_lines(gen, hot=None, p=0.25, cluster=0.5):
+def few_sessions(rng, plan):
+    """Keep one or two sessions (races around the first and the last session
+    of the table need a small table)."""
+    ss = plan.get('sessions') or []
+    n = rng.choice([1, 1, 2])
+    if len(ss) <= n:
+        return plan
+    del ss[n:]
+    for key in ('app', 'faults'):
+        plan[key] = [o for o in plan.get(key, [])
+                     if not isinstance(o.get('c'), int) or o['c'] < n]
+    hf = plan.get('app_opts', {}).get('handler_faults')
+    if hf:
+        plan['app_opts']['handler_faults'] = [
+            x for x in hf if not isinstance(x.get('c'), int) or x['c'] < n]
+    conn = plan.get('app_opts', {}).get('connect')
+    if isinstance(conn, dict):
+        plan['app_opts']['connect'] = {
+            k: v for k, v in conn.items() if int(k) < n}
+    return plan
+
+
+def client_race_cluster(rng, plan):
+    """Client plans: application calls in the very instant something the
+    scripted server does reaches the client (its timeline counts from the
+    connect, which takes no time in this world)."""
+    ops = plan['client']['ops']
+    tl = plan.get('sserver', {}).get('timeline', [])
+    conns = [o for o in ops if o['op'] == 'connect']
+    if not conns:
+        return plan
+    for _ in range(rng.choice([1, 2])):
+        c0 = rng.choice(conns)
+        if tl and rng.random() < 0.7:
+            rel = rng.choice(tl)['t']
+        else:
+            rel = ticks(rng, 0.05, 3.0)
+            tl.append({'t': rel, 'pkts': [[4, {'k': 's',
+                                               'v': 'race-s%d' % len(tl)}]]})
+        for what in rng.sample(['send', 'disconnect', 'send', 'wait'],
+                               rng.choice([1, 2, 3])):
+            op = {'t': c0['t'] + rel, 'op': what}
+            if what == 'send':
+                op['data'] = {'k': 's', 'v': 'race-c%d' % len(ops)}
+            if what == 'disconnect':
+                op['abort'] = rng.random() < 0.2
+            ops.append(op)
+    tl.sort(key=lambda x: x['t'])
+    ops.sort(key=lambda o: o['t'])
+    return plan
+
+
+def with_lines(gen, hot=None, p=0.25, cluster=0.5, few=0.3):
     """Wrap a plan generator: a share ``p`` of the plans that involve threaded
     code of the package run at line granularity."""
     def g(rng, tier, i):
@@ -495,8 +556,13 @@ def with_lines(gen, hot=None, p=0.25, cluster=0.5):
         if pool and rng.random() < p:
             line_decorate(rng, plan, [x for x in (hot or []) if x in pool],
                           sorted(set(pool)))
+            if cl is None and rng.random() < few:
+                few_sessions(rng, plan)
             if cl is None and rng.random() < cluster:
                 race_cluster(rng, plan)
+            if cl is not None and 'sserver' in plan and \
+                    rng.random() < cluster:
+                client_race_cluster(rng, plan)
         return plan
     g.lines = True
     return g
